@@ -16,7 +16,7 @@ import (
 // A probe installed as the first global middleware snapshots the context at
 // entry of every request.
 
-var kindNames = []string{"store", "errors", "abort", "status-write", "replace-resp", "replace-req", "set-handlers", "dynamic", "dynamic2", "notfound", "notallowed", "panic", "redispatch", "nested", "copy", "mutate-params", "dynamic3"}
+var kindNames = []string{"store", "errors", "abort", "status-write", "replace-resp", "replace-req", "set-handlers", "dynamic", "dynamic2", "notfound", "notallowed", "panic", "redispatch", "nested", "copy", "mutate-params", "dynamic3", "delegate"}
 
 type kindReq struct {
 	method, path string
@@ -41,11 +41,14 @@ var kindReqs = map[string]kindReq{
 	// a handler that edits its parameter map in place, and a plain request for the same URL
 	"mutate-params": {"POST", "/m/9"},
 	"dynamic3":      {"GET", "/m/9"},
+	// a handler that hands its context to ANOTHER router's HandleContext
+	"delegate": {"GET", "/deleg"},
 }
 
 type wrapW struct{ http.ResponseWriter }
 
 type kindRouter struct {
+	other    *rux.Router
 	r        *rux.Router
 	snap     string // probe snapshot of the request being served (outermost)
 	snaps    []string
@@ -61,6 +64,9 @@ type kindCfg struct {
 	Hook    bool // install OnPanic
 	OnError bool // install OnError
 	Cache   bool
+	// NoGlobal: the router has no global middleware; the probe is the first middleware of every route and the first
+	// of custom NotFound / NotAllowed chains (so the context's chain buffer is the router's own slice on 404 / 405)
+	NoGlobal bool
 }
 
 func newKindRouter(cfg kindCfg) *kindRouter {
@@ -81,52 +87,72 @@ func newKindRouter(cfg kindCfg) *kindRouter {
 	if cfg.OnError {
 		r.OnError = func(c *rux.Context) { c.SetHeader("X-Errors", fmt.Sprint(len(c.Errors))) }
 	}
-	// the probe: first global middleware
-	r.Use(func(c *rux.Context) {
+	// the probe: first global middleware (or, with NoGlobal, first middleware of every chain)
+	probe := func(c *rux.Context) {
 		s := k.probe(c)
 		k.snaps = append(k.snaps, s)
 		k.ctxPtrs = append(k.ctxPtrs, c)
+	}
+	if cfg.NoGlobal {
+		r.NotFound(probe, func(c *rux.Context) { c.Text(404, "custom-404") })
+		r.NotAllowed(probe, func(c *rux.Context) { c.Text(405, "custom-405") })
+	} else {
+		r.Use(probe)
+	}
+	// route registration: with NoGlobal the probe is the first middleware of the route itself
+	get := func(path string, main rux.HandlerFunc, mws ...rux.HandlerFunc) {
+		if cfg.NoGlobal {
+			mws = append([]rux.HandlerFunc{probe}, mws...)
+		}
+		r.GET(path, main, mws...)
+	}
+	// a second router a handler may delegate to
+	k.other = rux.New()
+	k.other.GET("/deleg", func(c *rux.Context) { c.WriteString("other-router:" + fmt.Sprint(c.Router() == k.other)) })
+	get("/deleg", func(c *rux.Context) {
+		c.Set("delegated", 1)
+		k.other.HandleContext(c)
 	})
-	r.GET("/store", func(c *rux.Context) {
+	get("/store", func(c *rux.Context) {
 		c.Set("k", "v")
 		c.Set("k2", 7)
 		c.WriteString("stored")
 	})
-	r.GET("/errors", func(c *rux.Context) {
+	get("/errors", func(c *rux.Context) {
 		c.AddError(errors.New("e1"))
 		c.AddError(errors.New("e2"))
 		c.WriteString("errors")
 	})
-	r.GET("/abort", func(c *rux.Context) { c.WriteString("never") }, func(c *rux.Context) { c.AbortWithStatus(403) })
-	r.GET("/status", func(c *rux.Context) {
+	get("/abort", func(c *rux.Context) { c.WriteString("never") }, func(c *rux.Context) { c.AbortWithStatus(403) })
+	get("/status", func(c *rux.Context) {
 		c.SetStatus(201)
 		c.WriteString("created")
 	})
-	r.GET("/wrap", func(c *rux.Context) {
+	get("/wrap", func(c *rux.Context) {
 		c.Resp = &wrapW{c.Resp}
 		c.WriteString("wrapped")
 	})
-	r.GET("/req", func(c *rux.Context) {
+	get("/req", func(c *rux.Context) {
 		c.WithReqCtxValue("rk", "rv")
 		c.WriteString(fmt.Sprint(c.ReqCtxValue("rk")))
 	})
-	r.GET("/seth", func(c *rux.Context) {
+	get("/seth", func(c *rux.Context) {
 		c.SetHandlers(rux.HandlersChain{func(*rux.Context) {}})
 		c.WriteString("seth")
 	})
-	r.GET("/d/{id}", func(c *rux.Context) { c.WriteString("d:" + c.Param("id")) })
-	r.GET("/d/{id}/{sub}", func(c *rux.Context) { c.WriteString("d2:" + c.Param("id") + ":" + c.Param("sub")) })
-	r.GET("/boom", func(c *rux.Context) {
+	get("/d/{id}", func(c *rux.Context) { c.WriteString("d:" + c.Param("id")) })
+	get("/d/{id}/{sub}", func(c *rux.Context) { c.WriteString("d2:" + c.Param("id") + ":" + c.Param("sub")) })
+	get("/boom", func(c *rux.Context) {
 		c.Set("before", "panic")
 		c.AddError(errors.New("pre-panic"))
 		panic("boom")
 	})
-	r.GET("/redir", func(c *rux.Context) {
+	get("/redir", func(c *rux.Context) {
 		c.Set("from", "redir")
 		c.Req.URL.Path = "/store"
 		c.Router().HandleContext(c)
 	})
-	r.GET("/nested", func(c *rux.Context) {
+	get("/nested", func(c *rux.Context) {
 		// a sub-request on the same router while this request is in flight
 		c.Set("outer", "1")
 		rec := httptest.NewRecorder()
@@ -136,15 +162,20 @@ func newKindRouter(cfg kindCfg) *kindRouter {
 		k.innerObs = fmt.Sprintf("%d:%s", rec.Code, rec.Body.String())
 		c.WriteString("outer-after-inner:" + k.innerObs + ":" + fmt.Sprint(c.SafeGet("outer")))
 	})
-	r.Add("/m/{id}", func(c *rux.Context) {
+	mm := func(c *rux.Context) {
 		seen := c.Param("id") + "/" + c.Param("extra")
 		if c.Req.Method == "POST" {
 			c.Params["id"] = "evil"
 			c.Params["extra"] = "added"
 		}
 		c.WriteString("m:" + seen)
-	}, "GET", "POST")
-	r.GET("/copy", func(c *rux.Context) {
+	}
+	if cfg.NoGlobal {
+		r.Add("/m/{id}", mm, "GET", "POST").Use(probe)
+	} else {
+		r.Add("/m/{id}", mm, "GET", "POST")
+	}
+	get("/copy", func(c *rux.Context) {
 		cp := c.Copy()
 		cp.Set("in-copy", 1)
 		c.WriteString(fmt.Sprintf("copy-aborted=%v orig-has=%v", cp.IsAborted(), c.SafeGet("in-copy") != nil))
@@ -168,7 +199,7 @@ func (k *kindRouter) probe(c *rux.Context) string {
 	fmt.Fprintf(&sb, "} params{%s} errors=%d first=%v aborted=%v status=%d length=%d chain=%d", canonParams(c.Params), len(c.Errors), c.FirstError(), c.IsAborted(), c.StatusCode(), c.Length(), c.VerifChainLen())
 	if k.depth == 0 {
 		_, ownWriter := c.Resp.(*wrapW)
-		fmt.Fprintf(&sb, " resp-replaced=%v raw-writer-is-this-recorder=%v req-is-this-request=%v reqctx=%v", ownWriter, c.RawWriter() == http.ResponseWriter(k.curRec), c.Req == k.curReq, c.ReqCtxValue("rk"))
+		fmt.Fprintf(&sb, " resp-replaced=%v raw-writer-is-this-recorder=%v req-is-this-request=%v reqctx=%v router-is-this-router=%v", ownWriter, c.RawWriter() == http.ResponseWriter(k.curRec), c.Req == k.curReq, c.ReqCtxValue("rk"), c.Router() == k.r)
 	}
 	return sb.String()
 }
